@@ -54,12 +54,31 @@ def expand():
 ERR_RE = re.compile(r'^error(?:\[[A-Z0-9]+\])?: (.*?)\n\s*--> ([^:\n]+):(\d+):(\d+)', re.M)
 
 
+FN_RE = re.compile(r'\s*(?:pub(?:\([a-z]+\))?\s+)?(?:const\s+)?(?:unsafe\s+)?(?:proof\s+|exec\s+|spec\s+|open\s+spec\s+|broadcast\s+proof\s+)?fn\s+([A-Za-z0-9_]+)')
+
+
 def fn_at_line(text_lines, line):
-    for i in range(min(line, len(text_lines)) - 1, -1, -1):
-        m = re.match(r'\s*(?:pub(?:\([a-z]+\))?\s+)?(?:const\s+)?(?:unsafe\s+)?(?:proof\s+|exec\s+|spec\s+|open\s+spec\s+|broadcast\s+proof\s+)?fn\s+([A-Za-z0-9_]+)', text_lines[i])
-        if m:
-            return m.group(1)
-    return None
+    """qualified name (Type::fn or fn) of the function containing `line` in a generated unit file
+    (impl blocks are emitted at column 0 by the unit builders)"""
+    cur_impl, cur_fn = None, None
+    for i in range(min(line, len(text_lines))):
+        l = text_lines[i]
+        if l.startswith('impl'):
+            m = re.match(r'impl(?:<[^>]*>)?\s+(?:.*?\bfor\s+)?([A-Za-z0-9_]+)', l)
+            cur_impl = m.group(1) if m else None
+        elif l.startswith('}'):
+            cur_impl = None
+        m = FN_RE.match(l)
+        if m and not l.lstrip().startswith('//'):
+            cur_fn = (cur_impl + '::' if cur_impl else '') + m.group(1)
+    return cur_fn
+
+
+def qual(function):
+    """tower::Fq2::mul_assign -> Fq2::mul_assign ; tower::lemma_x -> lemma_x"""
+    parts = function.split('::')[1:]
+    parts = [p for p in parts if not p.startswith('impl&%')]
+    return '::'.join(parts[-2:]) if len(parts) >= 2 else (parts[-1] if parts else function)
 
 
 def classify(res, text):
